@@ -533,6 +533,45 @@ Definition run_logger_gen (legacy : bool) (lg : logger) (skip : bool) (m : msg) 
         (m', [RText (reader dec v)])
   end.
 
+(* Does the logger's Modify{Request,Response} return an error?  (The proxy
+   then adds a Warning header to the forwarded message.)  The only source of
+   errors for messages read from the wire is content decoding; how Go's
+   gzip / flate readers behave on the body is external and enters as [cls]:
+   accepted, rejected when the reader is constructed (bad gzip header), or
+   failing while it is read (bad CRC, truncated, trailing garbage, zlib wrapper). *)
+Inductive dec_class := DecOk | DecFailOpen | DecFailRead.
+
+Definition resp_code (m : msg) : bytes := firstn 3 (skipn 9 (m_start m)).
+
+(* mv.compress is set, not reset for 204/206, and (fix C15-4) the body is not empty *)
+Definition compress_active (m : msg) : bool :=
+  let ce := header_get kCE (m_hdrs m) in
+  (bytes_eqb ce (B "gzip") || bytes_eqb ce (B "deflate"))
+  && (m_isreq m || negb (bytes_eqb (resp_code m) (B "204") || bytes_eqb (resp_code m) (B "206")))
+  && negb (bytes_eqb (m_body m) []).
+
+Definition decode_fails (cls : dec_class) (m : msg) (at_open_only : bool) : bool :=
+  compress_active m &&
+  match cls with
+  | DecOk => false
+  | DecFailOpen => true
+  | DecFailRead => negb at_open_only
+  end.
+
+(* [legacy = true]: before fix C15-6 (martianlog returned the error of
+   mv.Reader(Decode()); errors while copying were and are ignored).
+   har.NewResponse reads the decoded body with ReadAll and returns any error
+   (known finding C15-K1); har requests are not decoded. *)
+Definition logger_errors_gen (legacy : bool) (lg : logger) (skip : bool) (cls : dec_class) (m : msg) : bool :=
+  match lg with
+  | LSnap _ => false
+  | LMarbl => false
+  | LHar c => negb skip && negb (m_isreq m) && capture_on c m && decode_fails cls m false
+  | LText ho dec => legacy && negb skip && dec && negb ho && decode_fails cls m true
+  end.
+Definition logger_errors := logger_errors_gen false.
+Definition logger_errors_legacy := logger_errors_gen true.
+
 Definition run_logger := run_logger_gen false.
 Definition run_logger_legacy := run_logger_gen true.
 
